@@ -24,6 +24,8 @@ ASSUMPTIONS = {
 VERUS_UNITS = {
     'client_table': 'contracts.client_table',
     'client': 'contracts.client',
+    'server_table': 'contracts.server_table',
+    'server': 'contracts.server',
 }
 
 PROPS = {}
@@ -33,8 +35,16 @@ NOT_APPLICABLE = {
 }
 
 
-def prop(pid, **kw):
+SERVER_TOO = 'server-too'
+
+
+def prop(pid, *flags, **kw):
     PROPS[pid] = dict(id=pid, verus=[], kani=[], assumptions=[], bounded=[], not_covered='') | kw
+    if SERVER_TOO in flags:
+        PROPS[pid]['verus'] = list(PROPS[pid]['verus']) + ['server']
+        for a in ['A-abortable', 'A-sink', 'A-mpsc', 'A-delayqueue']:
+            if a not in PROPS[pid]['assumptions']:
+                PROPS[pid]['assumptions'] = list(PROPS[pid]['assumptions']) + [a]
 
 
 COMMON_V = ['A-extraction', 'A-tracing', 'A-pin', 'A-core', 'A-hashmap', 'A-verifiers']
@@ -47,7 +57,7 @@ prop('C01', title='Responses reach exactly the call that asked',
      level_text='Deductive proof over all table states, ids and responses: complete_request/complete/pump_read deliver a response body only to the oneshot channel stored under the response\'s own id, remove exactly that entry, and leave view, timers and effect log untouched for an unknown id; the write pump only ever delivers errors; insert stores exactly the given sender under the id written to the wire. Every history is a sequence of these contracted calls (single-owner dispatch), so the per-call clauses + dispatch invariant give the property for all interleavings.',
      level_note='The pairing of a call with its oneshot receiver (Channel::call) and tokio\'s oneshot delivery are assumed (A-pair, A-oneshot).',
      not_covered='that tokio delivers the value sent on a oneshot to the paired receiver')
-prop('C02', title='Every call terminates; no wakeup is lost',
+prop('C02', SERVER_TOO, title='Every call terminates; no wakeup is lost',
      verus=['client'], technique=TECH_V + ' (safety proxy: Pending => wake source armed)',
      assumptions=COMMON_V + ['A-oneshot', 'A-mpsc', 'A-delayqueue', 'A-sink'],
      level_text='Only the safety proxy is proved: every poll function of the client dispatch that returns Pending has, at that return, registered the waker with its own event source or is blocked behind a transport registration (flush/ready) or the in-flight capacity, and the run loop returns Pending only with the read side registered and timers registered when anything is in flight. Liveness proper (fair executor, wake => re-poll) is argued on paper and listed as unchecked.',
@@ -64,26 +74,26 @@ prop('C05', title='Client enforces request deadlines, never early',
      assumptions=COMMON_V + ['A-delayqueue', 'A-oneshot', 'A-clock'],
      level_text='Proof that insert_request arms exactly one timer for this id with delay min(deadline - now, MAX_TIMER_DELAY); that an expiry removes exactly the entry of the id its timer carried and delivers DeadlineExceeded to that entry\'s channel only; that a processed reply removes the timer (no later expiry); that pump_write polls expirations on every pass. Kani proves on the real code that time_until is the saturating difference for all instants.',
      level_note='Timer accuracy (never early, eventually fires) is tokio-util\'s (A-delayqueue).')
-prop('C07', title='Deadlines propagate across hops without stretching',
+prop('C07', SERVER_TOO, title='Deadlines propagate across hops without stretching',
      verus=['client'], kani=['k2_deadline_written_as_remaining_time', 'k2_deadline_decode_total_and_shifted', 'k2_deadline_shift_law', 'k2_default_deadline_ten_seconds', 'k3_time_until_is_saturating_difference'],
      technique=TECH_K + '; ' + TECH_V,
      assumptions=['A-codec', 'A-clock', 'A-verifiers', 'A-extraction'],
      level_text='CBMC proof over all instants now1 <= now2 and all deadlines of the real serialize/deserialize: written duration = saturating D - now1; decoded D\' = now2 + duration; D\' >= D, D\' - D = transit, passed deadline arrives as now; default = now + 10 s. Verus proves the request written to the wire carries the caller\'s context (deadline forwarded unchanged).',
      level_note='Codecs carrying a Duration faithfully and serde_derive\'s default handling are assumed (A-codec).',
      not_covered='context::current() inside a handler without an OpenTelemetry layer; the derived Context::deserialize with the field omitted')
-prop('C09', title='Transport failures are contained and reported',
+prop('C09', SERVER_TOO, title='Transport failures are contained and reported',
      verus=['client'], technique=TECH_V,
      assumptions=COMMON_V + ['A-sink', 'A-oneshot', 'A-mpsc', 'A-delayqueue'],
      level_text='Proof that each transport wrapper tags a failure with its activity and that the tag survives `?` up to run(); that a failed request write removes and fails only that call and is not fatal; that start_send is never reached after a reported failure (its precondition); panic freedom of every extracted function (expect/unwrap/DelayQueue preconditions discharged).',
      level_note='complete_all_requests + the terminal drain loop, Future::poll\'s dyn-Any downcast and the server side are not yet under contract.',
      not_covered='shut_down_with_terminal_error (iterator adaptor out of reach: assumed), server channel error paths (unit server)')
-prop('C10', title='Shutdown is orderly: queued work is drained first',
+prop('C10', SERVER_TOO, title='Shutdown is orderly: queued work is drained first',
      verus=['client'], technique=TECH_V,
      assumptions=COMMON_V + ['A-sink', 'A-mpsc', 'A-oneshot', 'A-delayqueue'],
      level_text='Proof that pump_write returns Ready(None) only when both queues are drained, the transport is closed and nothing is unflushed (invariant: closed => both queues drained); that run() returns Ok only if the read side ended or the write side closed with an empty table.',
      level_note='That dropping the dispatch future fails the remaining callers is Rust drop glue + A-oneshot.',
      not_covered='server side (unit server)')
-prop('C11', title='Tracked request state is bounded and fully reclaimed',
+prop('C11', SERVER_TOO, title='Tracked request state is bounded and fully reclaimed',
      verus=['client'],
      technique='Verus: representation invariant (timers<->entries bijection) + whole-view postconditions on the real table functions, extracted from /repo each run',
      level_text='Deductive proof, for all table states and all ids, that every public operation of the real in-flight tables preserves the timers<->entries bijection and changes the abstract view exactly as specified; the history quantifier is discharged by the invariant (every call sequence is a sequence of contracted calls).',
@@ -98,22 +108,45 @@ prop('C15', title='Shipped transports deliver messages intact and in order',
      assumptions=['A-codec', 'A-verifiers'],
      not_covered='length-delimited framing under fragmentation, serde-derived schemas, FIFO of the tokio/futures queues and end-of-stream signalling are dependency code (A-codec, A-mpsc): not claimed')
 
-prop('C14', title="tarpc honours the pluggable transport's contract",
+prop('C14', SERVER_TOO, title="tarpc honours the pluggable transport's contract",
      verus=['client'], technique=TECH_V + '; the transport model\'s start_send preconditions are the property\'s write conditions',
      assumptions=COMMON_V + ['A-sink', 'A-mpsc'],
      level_text='Proof that every start_send call site of the client dispatch establishes ready && !failed && !closed; that pump_write/run go idle only with unflushed == 0 or the flush waker registered; and the bounded-retry clause: ensure_writeable polls readiness at most twice per call (ghost counter np) and returns Pending with a transport waker registered.',
      level_note='Server channel and throttler call sites are in unit server when registered.',
      not_covered='server-side call sites until unit server is registered')
-prop('C16', title='No peer-supplied input can crash an endpoint',
+prop('C16', SERVER_TOO, title='No peer-supplied input can crash an endpoint',
      verus=['client'], kani=['k2_deadline_decode_total_and_shifted', 'k3_time_until_is_saturating_difference', 'k3_max_timer_delay_value', 'k1_errorkind_read_total_and_table'],
      technique=TECH_V + '; ' + TECH_K,
      assumptions=COMMON_V + ['A-delayqueue', 'A-clock', 'A-codec'],
      level_text='Panic freedom as proof obligations: DelayQueue::insert/remove preconditions (range, key present) discharged at every call site from the table invariant and the clamp; unknown ids change nothing; decoding any deadline duration or error code is total (CBMC, full domain).',
      level_note='Malformed frames are the codec\'s (dependency); the rpc.deadline span field rendering is not yet under contract.',
      not_covered='rpc.deadline tracing field arithmetic (R12), server table (unit server)')
-prop('C18', title='Trace context follows the request, and only that request',
+prop('C18', SERVER_TOO, title='Trace context follows the request, and only that request',
      verus=['client'], technique=TECH_V,
      assumptions=COMMON_V + ['A-otel', 'A-sink'],
      level_text='Proof that the Request written carries exactly the context stored in the table under its id, and that the Cancel for an id carries the trace context stored for that id (same trace id, sampling and span id); contexts live in the entry of their own id (frame clauses), so concurrent requests cannot exchange them.',
      level_note='Child-context derivation (new_child, server start_request) is in K6/unit server when registered.',
      not_covered='OpenTelemetry bridge')
+
+prop('C04', title='Servers stop cancelled work and cancellation cascades',
+     verus=['server'], technique=TECH_V,
+     assumptions=COMMON_V + ['A-abortable', 'A-delayqueue', 'A-sink', 'A-mpsc'],
+     level_text='Proof that a Cancel message aborts exactly the handle stored for that id, untracks it and removes its timer, and changes nothing for an unknown id; that BaseChannel::start_send drops a response whose id is no longer tracked (nothing is transmitted after a cancel); that reading never produces effects other than aborts; that every poll of a channel polls its inbound side (control traffic is processed). The cascade step (an aborted handler drops its nested calls, whose guards cancel downstream) rests on A-abortable + the client guard contract.',
+     level_note='Known finding F8 (throttler at its limit with the sink not ready does not poll the inner channel) is reported as KNOWN-FINDING.',
+     not_covered='InFlightRequest::execute (async + Abortable: outside both verifiers); multi-hop cascade is an argument over contracts, not a checked lemma')
+prop('C06', title='Server enforces request deadlines, never early',
+     verus=['server'], kani=['k3_time_until_is_saturating_difference', 'k3_max_timer_delay_value'], technique=TECH_V + '; ' + TECH_K,
+     assumptions=COMMON_V + ['A-abortable', 'A-delayqueue', 'A-clock', 'A-sink'],
+     level_text='Proof that start_request arms exactly one timer for the id with delay min(deadline - now, MAX_TIMER_DELAY); that an expiry aborts exactly the handle of the id its timer carried, removes that entry only; that a response for an expired id is dropped by start_send. Kani proves the arithmetic of time_until on the real code.',
+     level_note='Known finding F8 is shared with C04. Timer accuracy is tokio-util\'s.')
+prop('C08', title='One handler and at most one response per request',
+     verus=['server'], technique=TECH_V,
+     assumptions=COMMON_V + ['A-abortable', 'A-delayqueue', 'A-sink', 'A-mpsc'],
+     level_text='Proof that BaseChannel::poll_next yields a TrackedRequest only for an id that was not tracked at that moment and tracks it (a duplicate id yields nothing and changes nothing); that start_send writes a response iff its id is tracked and untracks it (so between two transmissions of an id there is a fresh read of it on this channel, and every transmitted response answers a request read here); that Requests forwards at most one response per pass through that start_send and wraps each TrackedRequest into exactly one InFlightRequest.',
+     level_note='Generic over the Channel contract: holds for BaseChannel and for MaxRequests<C> stacked on any quiet channel.',
+     not_covered='id reuse after cancellation while the old handler\'s response is still queued')
+prop('C12', title='Per-channel request limit throttles exactly the excess',
+     verus=['server'], technique=TECH_V + '; the inner channel is an arbitrary implementation of the proved Channel contract',
+     assumptions=COMMON_V + ['A-sink'],
+     level_text='Proof, for an arbitrary inner channel satisfying the Channel contract (which BaseChannel is proved to satisfy), that MaxRequests hands out a request only while fewer than L others are in flight; that everything it writes while reading is a WouldBlock error reply for a request it just read, sent through start_send (which untracks it, so it is never executed); and the clause "refused only if L others really were in flight when it was read".',
+     level_note='Known finding F7: the last clause fails on the real code (limit tested before the inner read).')
